@@ -510,7 +510,7 @@ func (e *Env) object(o types.Object) CV {
 func (e *Env) typeByName(name string) (types.Type, string) {
 	g := e.g
 	switch name {
-	case "ref":
+	case "ref", "dyn":
 		return nil, "Int"
 	case "mathint":
 		return nil, "Int"
@@ -749,6 +749,45 @@ func (e *Env) call(n *CCall) CV {
 		need(1)
 		v := e.eval(n.Args[0])
 		return CV{T: sx("<=", v.T, e.st.top), Ty: boolT}
+	case "dyn":
+		need(1)
+		v := e.eval(n.Args[0])
+		if v.K != nil {
+			v = e.at(v, nil)
+		}
+		return CV{T: g.box(v.T, v.Ty), Sort: "Int"}
+	case "asbytes", "asstring", "asint", "asint64":
+		need(1)
+		v := e.eval(n.Args[0])
+		var t types.Type
+		switch n.Fun {
+		case "asbytes":
+			t = types.NewSlice(byteT)
+		case "asstring":
+			t = stringT
+		case "asint":
+			t = intT
+		default:
+			t = types.Typ[types.Int64]
+		}
+		return CV{T: g.unbox(v.T, t), Ty: t}
+	case "hastype":
+		// hastype(x, "int64")
+		need(2)
+		v := e.eval(n.Args[0])
+		tn := e.eval(n.Args[1])
+		if tn.K == nil {
+			panic(cerr("hastype needs a literal type name"))
+		}
+		var t types.Type
+		switch constant.StringVal(tn.K) {
+		case "[]byte":
+			t = types.NewSlice(byteT)
+		default:
+			t, _ = e.typeByName(constant.StringVal(tn.K))
+		}
+		g.needTypeof()
+		return CV{T: and(not(eq(v.T, "0")), eq(sx("typeof", v.T), g.typeTag(t))), Ty: boolT}
 	case "mathint":
 		need(1)
 		v := e.eval(n.Args[0])
@@ -802,13 +841,11 @@ func (e *Env) call(n *CCall) CV {
 			}
 			ne := e.clone()
 			ne.vars = map[string]CV{}
-			for k, v := range e.vars {
-				ne.vars[k] = v
-			}
 			for i, a := range n.Args {
 				ne.vars[pd.Params[i]] = e.eval(a)
 			}
-			// predicate bodies only see their parameters, bound variables and package scope
+			// predicate bodies only see their parameters and package scope (no capture of outer bound variables)
+			ne.bound = map[string]CV{}
 			ne.fr = nil
 			if pk, ok := g.P.allPkgs[pkgPath]; ok {
 				ne.pkg = pk.Types
